@@ -17,7 +17,7 @@
  * termination detection): every rank monitors, takes the start-up runtime
  * action (+1 pending action), discovers w_r tasks (symbolic), calls
  * taskpool_ready; optional deterministic prefix PRE; then every rank releases
- * its start-up action (rank order).
+ * its start-up action (rank order; with PRE=3 the root's release is a symbolic event 4).
  * Safety oracle (inside the termination callback): whenever ANY rank reports
  * termination, every rank has nb_tasks == 0, nb_pending_actions == 0 and no
  * application message is in flight; no rank reports twice; no event can make a
@@ -51,6 +51,11 @@ int clock_gettime(clockid_t c, struct timespec *t){(void)c; t->tv_sec=0; t->tv_n
 #ifndef PRE
 #define PRE 0
 #endif
+#if PRE == 3
+#define EVMAX 4
+#else
+#define EVMAX 3
+#endif
 
 static parsec_context_t ctx0, ctx1, ctx2;
 static parsec_taskpool_t tp0, tp1, tp2;
@@ -63,6 +68,7 @@ static cmsg_t q[NR][NR]; static int qfull[NR][NR];   /* control channels src->ds
 static int app_inflight[NR][NR];                  /* ghost: application messages src->dst in flight */
 static int app_half[NR][NR];                      /* ghost: of those, reception started but not finished */
 static int app_delivered, ctl_delivered, waves_rejected, split_delivered;
+static int late_release;
 static int decisions_since_quiet;                 /* ghost: consecutive root decisions taken while the application is quiet */
 parsec_comm_engine_t parsec_ce;
 
@@ -180,19 +186,25 @@ int main(void)
     /* every rank is made ready before the first delivery: the module's delayed-message list is one
      * static shared by the in-process instances (the delayed path has its own query, hd.c) */
     for(int r = 0; r < NR; r++) { cur = r; M->module.taskpool_ready(TP(r)); }
-#if PRE >= 1   /* prefix: the task of rank 0 sends one application message to rank 1 and completes */
+#if PRE == 1 || PRE == 2   /* prefix: the task of rank 0 sends one application message to rank 1 and completes */
     cur = 0; M->module.outgoing_message_start(TP(0), 1, NULL); app_inflight[0][1]++;
     M->module.taskpool_addto_nb_tasks(TP(0), -1);
 #endif
-#if PRE >= 2   /* ... which is delivered, and the task it creates on rank 1 completes, before start-up ends */
+#if PRE == 2   /* ... which is delivered, and the task it creates on rank 1 completes, before start-up ends */
     cur = 1; M->module.incoming_message_start(TP(1), 0, NULL, NULL, 0, NULL); M->module.taskpool_addto_nb_tasks(TP(1), 1);
     app_inflight[0][1]--; app_delivered++; M->module.incoming_message_end(TP(1), NULL);
     M->module.taskpool_addto_nb_tasks(TP(1), -1);
 #endif
+#if PRE == 3   /* prefix: the task of rank 0 completes while rank 0 still holds its start-up action; the release
+                * of that action becomes a symbolic event (4) */
+    cur = 0; M->module.taskpool_addto_nb_tasks(TP(0), -1);
+    for(int r = 1; r < NR; r++) { cur = r; M->module.taskpool_addto_runtime_actions(TP(r), -1); check_progress(); }
+#else
     for(int r = 0; r < NR; r++) { cur = r; M->module.taskpool_addto_runtime_actions(TP(r), -1); check_progress(); }
+#endif
 
     for(int s = 0; s < KK; s++) {
-        int ev = IN_RANGE(0, 3), a = IN_RANGE(0, NR-1), b = IN_RANGE(0, NR-1); int snd = IN_RANGE(0, 2);
+        int ev = IN_RANGE(0, EVMAX), a = IN_RANGE(0, NR-1), b = IN_RANGE(0, NR-1); int snd = IN_RANGE(0, 2);
         if(ev == 0) {
             if(a == 0) ev_task(&tp0, 0, b, snd); else if(a == 1) ev_task(&tp1, 1, b, snd); else ev_task(&tp2, 2, b, snd);
         } else if(ev == 1 || ev == 3) {
@@ -200,6 +212,10 @@ int main(void)
             VASSUME(a != b);
             if(start) VASSUME(app_inflight[a][b] > app_half[a][b]); else VASSUME(app_half[a][b] > 0);
             if(b == 0) ev_app(&tp0, a, 0, start, end); else if(b == 1) ev_app(&tp1, a, 1, start, end); else ev_app(&tp2, a, 2, start, end);
+        } else if(ev == 4) {
+            cur = 0; decisions_since_quiet = 0;
+            VASSUME(tp0.nb_pending_actions > 0);
+            M->module.taskpool_addto_runtime_actions(&tp0, -1); late_release++;
         } else {
             VASSUME(a != b && qfull[a][b]);
             cmsg_t m = q[a][b]; qfull[a][b] = 0; ctl_delivered++;
@@ -213,6 +229,9 @@ int main(void)
 #endif
 #if W_APPTERM
     if(all && app_delivered >= 1) VWITNESS("terminated after an application message was delivered");
+#endif
+#if PRE == 3
+    if(all && late_release && ctl_delivered >= 3) VWITNESS("start-up action of the root released after its child reported; terminated");
 #endif
 #if W_SPLIT
     if(split_delivered >= 1 && ctl_delivered >= 1) VWITNESS("split reception of an application message, control message delivered");
